@@ -163,6 +163,13 @@ def run_case(case):
             ow = (Owner if hk == "meth" else AOwner)(i, calls)
             owners.append(ow)
             handlers.append(ow.meth)
+        elif hk == "rfunc":
+            # a handler that raises: the notifier must contain it (no change may raise)
+            def fh(event, _i=i):
+                calls.append(_i)
+                raise ValueError("handler %d raises" % _i)
+            owners.append(None)
+            handlers.append(fh)
         else:
             def fh(event, _i=i):
                 calls.append(_i)
